@@ -90,6 +90,7 @@ where
         };
         self.target
             .write_all(json_txt.as_bytes())
+            .and_then(|()| self.target.flush())
             .map_err(|e| SinkError(e.into()))?;
         Ok(self)
     }
